@@ -8,7 +8,8 @@ def register_p(reg, prop):
     from hippolyzer.lib.base.message.msgtypes import MsgType
     reg.add_class(ClassDecl("Xfer", fields={"xfer_id": "Opt[Int]", "chunks": "Opaque:Dict", "expected_size": "Opt[Int]", "size_known": "Opaque:Any",
                                             "error_code": "Int", "next_ackable": "Int", "turbo": "Bool", "direction": "Opaque:Any",
-                                            "expected_chunks": "Opt[Int]", "_future": "Opaque:Any"}))
+                                            "expected_chunks": "Opt[Int]", "_future": "Opaque:Any"},
+                            inline={"done": (XREL, "Xfer.done"), "mark_done": (XREL, "Xfer.mark_done")}))
     reg.add_fn(FnContract(
         key="hippolyzer.lib.base.xfer_manager:Xfer.__init__", relpath=XREL, qualname="Xfer.__init__", cls="Xfer", prop=prop, use_wf=False,
         params={"xfer_id": "Opt[Int]", "direction": "Opaque:Any", "data": "Opt[Bytes]", "turbo": "Bool"},
